@@ -7,7 +7,8 @@
    converted arguments, `off` the offset of the local zone (Sem/Eval.v).
    `leap`, `days_in_month`, `valid_date` (Proofs/BuiltinDateFacts.v) are the textbook Gregorian
    rules - an independent description against which the day-number arithmetic is checked.
-   NOT COVERED: timeFormat, now, toDay (the model answers Unk: clock_and_format_not_modelled);
+   NOT COVERED: now, toDay inside a formula (the model answers Unk: clock_not_modelled), the zone abbreviation
+   in a layout of timeFormat;
    zones with daylight saving (the model has fixed-offset zones only). *)
 From Coq Require Import String Ascii.
 From Coq Require Import List ZArith.
@@ -213,13 +214,12 @@ Theorem toDay_example :
   t_hour (mkTime 1699986600000000000 19800) = 0 /\ t_day (mkTime 1699986600000000000 19800) = 15.
 Proof. exact today_example. Qed.
 
-(* ---- timeFormat: NOT COVERED; now / toDay inside a formula: the evaluator model has no clock (Unk), the clock
+(* ---- now / toDay inside a formula: the evaluator model has no clock (Unk), the clock
    model above is compared with the implementation separately ---- *)
 
-Theorem clock_and_format_not_modelled : forall off t s,
-  builtin_apply off (str "now") [] = Unk /\ builtin_apply off (str "toDay") [] = Unk /\
-  builtin_apply off (str "timeFormat") [VTime t; VStr s] = Unk.
-Proof. exact BuiltinDateFacts.clock_and_format_not_modelled. Qed.
+Theorem clock_not_modelled : forall off,
+  builtin_apply off (str "now") [] = Unk /\ builtin_apply off (str "toDay") [] = Unk.
+Proof. exact BuiltinDateFacts.clock_not_modelled. Qed.
 
 Print Assumptions clock_read_once.
 Print Assumptions toDay_is_local_midnight.
@@ -250,4 +250,4 @@ Print Assumptions useTimezone_keeps_instant.
 Print Assumptions useTimezone_unknown_zone.
 Print Assumptions useTimezone_local_time.
 Print Assumptions useTimezone_examples.
-Print Assumptions clock_and_format_not_modelled.
+Print Assumptions clock_not_modelled.
